@@ -550,6 +550,8 @@ PROPS = {
             ("H2V.Props.C11", "H2V.Props.C11.fragments_decode_sound"),
             ("H2V.Props.C11", "H2V.Props.C11.fragments_rfc_error_rejected"),
             ("H2V.Props.C11", "H2V.Props.C11.history_of_fragmented_blocks_sound"),
+            ("H2V.Props.C11", "H2V.Props.C11.queue_size_update_refines"),
+            ("H2V.Props.C11", "H2V.Props.C11.history_with_size_updates_sound"),
             ("H2V.Props.C11", "H2V.Props.C11.table_within_limit"),
             ("H2V.Props.C11", "H2V.Props.C11.decode_never_panics"),
             ("H2V.Props.C11", "H2V.Props.C11.int_sound_and_bounded"),
